@@ -818,8 +818,21 @@ def _inl(rule):
     return run
 
 
+def rule_memo_reiterable(model):
+    r = RuleResult('C11.R7', 'the batch lists (previous-batches / '
+                   'next-batches) and everything else memoised in the '
+                   'per-loop variable cache are re-iterable: a one-shot '
+                   'iterator answers only the first consultation of the '
+                   'navigation data for an element')
+    from .. import oneshot
+    return oneshot.fill_rule(
+        r, model, lambda fi, kind: fi.module.short == 'DT_InSV' and
+        kind in ('entry', 'element'), 20,
+        "the dtml-in variable cache")
+
+
 RULES = [_inl(rule_windows), _inl(rule_keys), _inl(rule_params), _inl(rule_opt_forms), _inl(rule_window_invariants),
-         _inl(rule_orphan)]
+         _inl(rule_orphan), rule_memo_reiterable]
 EXPLANATION = (
     'Linear normal forms of the arguments of every opt() call and of every '
     'published batch key, compared with the documented formula (sites must '
